@@ -34,6 +34,12 @@ var Metas = map[string]Meta{
 		Technique: "symbolic execution of go/ssa over symbolic lifecycle histories with lock/deadlock modelling + SMT; native replay",
 		Design:    "DESIGN.md §4 C17",
 	},
+	"C18": {
+		Text:      "The real event machinery (process.RegisterEvent/SendEvent/LinkEvent/MonitorEvent/..., RouteSendEvent, Route{Link,Unlink,Monitor,Demonitor}Event, RouteTerminateEvent, target manager, the flush-mode MPSC buffer) runs symbolically over every history of <=5 operations by a token holder, a stranger and two consumers, for buffer sizes 0..2 and Notify on/off, followed by unregistration or owner termination; real mailboxes are inspected against the statement. A consumer that both links and monitors the same event is outside the claim (the statement does not say whether it counts once or twice).",
+		Note:      bmcNote + " Local subscribers only; publish-vs-subscribe races are the subject of concurrency entries when present in the evidence.",
+		Technique: "symbolic execution of go/ssa over symbolic operation histories + SMT; native replay",
+		Design:    "DESIGN.md §4 C18",
+	},
 	"C19": {
 		Text:      "The real Pool.ProcessRun and Pool.forward run symbolically on a fake gen.Process whose Forward returns, per attempt, a symbolic outcome (delivered, unknown, terminated, mailbox full; dead workers stay dead): exactly one hand-over of the very same message object, full workers skipped, dead workers replaced on the spot with LinkParent, ring size kept, drop only when all are full. Bounded: pool <=3, <=3 messages.",
 		Note:      bmcNote,
